@@ -85,6 +85,26 @@ INFO = {
  "C18d": ("protocol/saslauthenticate (*Request).readResp: the short-read check after io.ReadAll is gone", "Transport path, SaslHandshake v0 (raw tokens), PLAIN: the broker announces an answer length and closes before the last byte: authentication is taken to have succeeded and a Metadata request is written"),
  "C19d": ("offsetfetch.go (*Client).OffsetFetch: one shared slice for every topic's partition indexes", "an OffsetFetch for two or more topics with different partition lists: earlier topics are asked with the later topic's indexes"),
  "C20d": ("protocol/decode.go checkArrayLength/decodeCompactArray: the count is converted to int before the check", "a flexible response whose compact array count is 2^63+1 or more: negative count passes the check, reflect.MakeSlice panics on a Transport goroutine"),
+ "C01e": ("protocol/response.go ReadResponse: a plain io.EOF left in the decoder is treated as benign", "a produce response of an error answer cut exactly on a field boundary before the error code: decoded as success, the Writer stops retrying and reports the batch written"),
+ "C02e": ("message_reader.go extractOffset: the last inner offset of a compressed v0/v1 wrapper is computed as first + count - 1", "message format 0/1, compressed wrapper, a compaction hole inside the set: shifted offsets, and records of a following set dropped"),
+ "C03e": ("conn.go (*Conn).offsetCommit: only the first partition response of each topic is checked for an error code", "one commit request covering two or more partitions of a topic of which the coordinator rejects one that is not first: CommitMessages returns nil, the offset was not recorded"),
+ "C04e": ("write.go writeProduceRequestV3: the size prefix counts a constant 2 for the transactional id", "ConnConfig.TransactionalID set and a broker whose Produce maximum is 3..6: the frame's size prefix is short by the id's length"),
+ "C05e": ("crc32.go (*crc32Writer).writeBytes: an empty slice is summed as null", "legacy Conn produce in message format 1 (broker Produce maximum 2) with an empty non-nil key or value: the CRC on the wire does not match"),
+ "C06e": ("transport.go (*conn).run keeps a connection after a request timed out + protocol/conn.go RoundTrip hands the correlation id back after a failed exchange", "a round trip whose deadline expires after it was sent, then another on the same pooled connection: it gets the late answer of the first"),
+ "C07e": ("writer.go (*partitionWriter).writeBatch: a batch refused with NotLeaderForPartition is re-queued at the tail", "error 6 on a batch while later batches of the partition are queued: they overtake it"),
+ "C08e": ("writer.go (*Writer).chooseTopic: a message topic equal to Writer.Topic is accepted", "Writer.Topic set and a message carrying the same topic: the call is not rejected and is produced"),
+ "C09e": ("writer.go (*partitionWriter).writeBatch: leaves the retry loop after the back-off when the Writer is closed", "a retriable produce failure with Close during the back-off: the accepted message is abandoned with attempts left"),
+ "C10e": ("balancer.go (*LeastBytes).Balance: len(lb.counters) compared before the mutex is taken", "the partition count changing (or first use) while other goroutines call Balance"),
+ "C11e": ("message_reader.go newMessageSetReader: returns nil instead of the half-built reader on a header error", "a fetch response truncated inside the first message header, processed after the RTT-adjusted deadline (turned into RequestTimedOut): the rest of the response stays unread and the Conn open"),
+ "C12e": ("protocol/produce (*Request).Broker: broker.ID <= 0 means nothing chosen yet", "a raw multi-partition produce request through Transport.RoundTrip whose first partition is led by broker 0 and a later one by another broker: sent to the latter instead of refused"),
+ "C13e": ("balancer.go (ReferenceHash).Balance: value receiver, so every call locks a copy of the mutex", "a user supplied Hasher shared by concurrent Balance calls on one ReferenceHash"),
+ "C14e": ("groupbalancer.go findPartitions: early exit at the first partition of another topic (same change as C14d, produced independently)", "non-contiguous listing of a topic's partitions"),
+ "C15e": ("consumergroup.go (*Generation).close: returns at once when closed is already set", "a generation ended from the inside (heartbeat error, rebalance) while another of its functions is slow to return: Next hands out the next generation meanwhile"),
+ "C16e": ("compress/snappy/xerial.go (*xerialWriter).ReadFrom: the error of Read is looked at before the bytes it returned", "the io.ReaderFrom path with a source whose last Read returns data together with io.EOF: the tail is dropped silently"),
+ "C17e": ("message_reader.go readMessageV1: the bytes still owed by the connection computed from the announced compressed length", "a v0/v1 xerial-snappy wrapper as last message, connection cut at a frame boundary of the compressed value: the batch ends with io.EOF and the Conn is kept"),
+ "C18e": ("transport.go authenticateSASL: `completed` is looked at before the error of sess.Next", "Transport, SCRAM, failure at the last step (bad server signature, e=...): the connection counts as authenticated"),
+ "C19e": ("conn.go (*Conn).Seek: the already-there shortcut of SeekAbsolute also applies to SeekStart", "a Conn positioned at absolute offset N, then Seek(N, SeekStart) on a partition whose log start is not 0: N instead of first+N, no range check"),
+ "C20e": ("protocol/decode.go checkArrayLength takes an int (same change as C20d, produced independently)", "compact array count of 2^63+1 or more"),
  "C20": ("protocol/decode.go (*decoder).read: the n < 0 guard is dropped", "flexible versions only: a compact string/bytes length or tagged-field size of 2^63 or more becomes a negative int and reaches make()"),
 }
 
